@@ -9,7 +9,13 @@ for s in "$@"; do
 		VERIF_SEED=$s ./check C$i $TIER >/tmp/sweep_$$.log 2>&1
 		rc=$?
 		printf "seed=%s C%s %s rc=%d %ds %s\n" $s $i $TIER $rc $(( $(date +%s) - t0 )) "$(grep -E '^(VIOLATION|INCONCLUSIVE)' /tmp/sweep_$$.log | head -2 | tr '\n' ' ' | cut -c1-200)"
-		if [ $rc -ne 0 ]; then grep -A3 -E '^(VIOLATION|INCONCLUSIVE)' /tmp/sweep_$$.log | head -12; fi
+		if [ $rc -ne 0 ]; then
+			grep -A3 -E '^(VIOLATION|INCONCLUSIVE)' /tmp/sweep_$$.log | head -12
+			# keep the replay files (a background run's snapshot is removed)
+			mkdir -p /tmp/sweep_replays/$TIER-$s-C$i
+			cp -f .work/C$i/replay-* /tmp/sweep_replays/$TIER-$s-C$i/ 2>/dev/null
+			cp -f /tmp/sweep_$$.log /tmp/sweep_replays/$TIER-$s-C$i/log.txt
+		fi
 	done
 done
 rm -f /tmp/sweep_$$.log
